@@ -756,7 +756,6 @@ Definition call_spec (f : string) (args : list expr) : SM (pyval * list top) :=
                  end);;~
                 v <~ seval0 actual false;;
                 cv <~ slift (store ty v);;
-                (if pyval_eqb cv v then sret tt else known "classical argument not converted to the formal's type" (sret tt));;~
                 go l' (bs ++ [(name, BVar ty (Some cv) false)]) used
             | (actual, FQubit name size) :: l' =>
                 n <~ (match size with None => sret 1 | Some e => eval_int e true end);;
